@@ -89,7 +89,18 @@ fn pool_value(sel: u8, raw: u64, logn: u32) -> u64 {
 fn parm_case(tier: Tier) -> BoxedStrategy<ParmCase> {
     let _ = tier;
     (0u8..=3, 0u8..32, proptest::collection::vec((any::<u8>(), any::<u64>()), 0..=8), (any::<u8>(), any::<u64>()), 0u8..8, any::<[bool; 2]>(), 0u8..3, any::<u8>(), 0u8..40)
-        .prop_map(|(scheme_raw, dsel, specs, (tsel, traw), secsel, flags, order, dupsel, manysel)| {
+        .prop_map(|(scheme_raw, dsel, specs, (tsel, traw), secsel, flags, order, dupsel, manysel)| parm_from_raw(scheme_raw, dsel, specs, (tsel, traw), secsel, flags, order, dupsel, manysel)).boxed()
+}
+/// fuzz decoder (engine E3): the same primitive choices drawn from fuzzer bytes
+fn parm_decode(src: &mut crate::fuzz::Src) -> Option<ParmCase> {
+    let scheme_raw = src.below(4) as u8; let dsel = src.below(32) as u8; let ns = src.below(9) as usize;
+    let specs: Vec<(u8, u64)> = (0..ns).map(|_| (src.u8(), src.u64())).collect();
+    let t = (src.u8(), src.u64()); let secsel = src.below(8) as u8; let flags = [src.bool(), src.bool()]; let order = src.below(3) as u8; let dupsel = src.u8(); let manysel = src.below(40) as u8;
+    Some(parm_from_raw(scheme_raw, dsel, specs, t, secsel, flags, order, dupsel, manysel))
+}
+#[allow(clippy::too_many_arguments)]
+fn parm_from_raw(scheme_raw: u8, dsel: u8, specs: Vec<(u8, u64)>, (tsel, traw): (u8, u64), secsel: u8, flags: [bool; 2], order: u8, dupsel: u8, manysel: u8) -> ParmCase {
+        {
             // bias towards acceptable sets: real schemes, power-of-two degrees
             let scheme = if scheme_raw == 0 && dsel % 8 != 0 { 1 + dsel % 3 } else { scheme_raw };
             let standard = secsel >= 5;
@@ -114,7 +125,7 @@ fn parm_case(tier: Tier) -> BoxedStrategy<ParmCase> {
                 6 | 7 => ntt_prime(lg, 4 + (traw % 40) as u32, (traw >> 8) as u8), _ => 2 + traw % (1u64 << (2 + traw % 30)) } };
             let sec = if standard { [128u16, 192, 256][(secsel % 3) as usize] } else { 0 };
             ParmCase { scheme, degree, moduli, t, sec, expand: flags[0], special: flags[1], order }
-        }).boxed()
+        }
 }
 
 /// small universe, exhaustive (thorough tier): N in {2,4,8}, moduli 2..64 (lists of length <= 2), t <= 40, all schemes
@@ -347,7 +358,7 @@ pub fn def() -> PropertyDef {
         rule: "random parameter objects built through the public builder in three setter orders: scheme incl. None, degree in {0,1,3,6,2^1..2^18}, 0..8 (occasionally 64) moduli from a pool of NTT-friendly primes of 2..60 bits, unfriendly primes, composites = 1 mod 2N, even values, 61-bit primes, 2, 3, arbitrary values and duplicates, plain modulus 0 / 2 / 2^k / multiple of a q_i / 61-bit / >= Q / batching prime / small, security level None/128/192/256 with standard degrees, both flags; exhaustive small universe N in {2,4,8}, one or two moduli 2..24 (thorough 2..64), t 2..12 (thorough 2..40), three schemes. Oracle: HeContext::new never panics; parameters_set implies an independently coded predicate on every level; rejected sets carry a specific error; accepted chains: link structure, prefix moduli, constants against big-integer definitions, qualifier flags, identifiers equal across independently built contexts (other setter order, after a serialization round trip) and collision-free over the run. Plus CoeffModulus::create / PlainModulus::batching / bfv_default outputs (deterministic Miller-Rabin, exact sizes, congruence, distinctness) and acceptance of library-generated sets. non-trivial: rejected beyond the first two rungs, or accepted with >= 2 levels.",
         assumptions: vec!["only the soundness direction (set => predicate) is asserted for arbitrary objects; completeness only for sets produced by the library's own generators", "collision freedom is over the generated universe, not SHA-256's domain"],
         subs: vec![
-            Sub::prop("random_parameter_objects", 40_000, 1_000_000, 0.3, parm_case, oracle),
+            Sub::prop("random_parameter_objects", 40_000, 1_000_000, 0.3, parm_case, oracle).fuzzable(parm_decode, oracle), Sub::corpus("fuzz_corpus_params", "c13_params", parm_decode, oracle),
             Sub::enumerate("small_universe_exhaustive", universe, oracle),
             Sub::prop("generated_moduli", 1_500, 30_000, 0.3, |_| gen_case(), gen_oracle),
             Sub::enumerate("known_finding_probe", probe_cases, probe_oracle),
